@@ -27,6 +27,7 @@ RULE = ("random parent domains (1-5 parents, inner lists of length 0-4 drawn wit
         "multisets of identities. Non-trivial: at least two parents have different non-empty lists and the result is "
         "neither empty nor everything. distinct by structural hash.")
 RULE += " Size cases (every tier): 25-50 parents with inner collections of 8-24 plain numbers, two conditions on the element, optionally three tiers enumerated outside the flatten; evaluated twice."
+RULE += ' Failing inner collection (every tier): for inner collections that are @symbol instances the same query object is first evaluated while one collection fails to hand out its iterator (1st-3rd request); the exception must reach the caller and the judged evaluations that follow must be exact.'
 LEVEL_TEXT = ("Reference-model monitoring: rows of the real flatten query compared by identity and multiplicity with the "
               "nested-loop UNNEST written in plain Python.")
 LEVEL_NOTE = "Trusted: the oracle (a two-line nested loop)."
